@@ -396,6 +396,11 @@ def oracle(case, out):
         if run["before_init"][0] != m_prev:
             return "run %d starts with m = %d, previous run ended at %d" % (ri, run["before_init"][0], m_prev)
         prev = run["after_init"]
+        if prev[0] != run["before_init"][0]:
+            return ("run %d (run(%d, %d)): the start of the run changed the transition counter from %d to %d — the warm-up counter must "
+                    "persist across run() calls" % (ri, run["n"], run["d"], run["before_init"][0], prev[0]))
+        if ri > 0 and (prev[1] != run["before_init"][1] or prev[2] != run["before_init"][2] or prev[3] != run["before_init"][3]):
+            return "run %d: the start of a later run changed the step size / averaged step size / H_bar" % ri
         mu = N.bf(prev[4])
         e0 = N.bf(prev[1])
         if not (e0 > 0 and math.isfinite(e0)):
